@@ -38,9 +38,16 @@ def gen_case(rng, big):
     meta = []          # (sys, ndim) per slot
     nbase = int(rng.integers(1, 4))
     first = None
+    last = None
     shared = bool(rng.random() < 0.4)       # constructor inputs alias each other / are reused between grids
+    xdim = bool(rng.random() < 0.15)        # family: grids of different ndim with equal point counts and shared leading axes
+    if xdim:
+        nbase = int(rng.integers(2, 5))
     for k in range(nbase):
-        if first is not None and rng.random() < (0.5 if not shared else 0.75):
+        if first is not None and xdim:
+            # cross-dimension twin: other number of axes, same number of points, shared leading axes
+            spec = twin_of(rng, first if rng.random() < 0.6 else last, what='ndim')
+        elif first is not None and rng.random() < (0.5 if not shared else 0.75):
             # a near twin of the first grid: same shape, one thing changed
             spec = twin_of(rng, first)
         else:
@@ -51,6 +58,7 @@ def gen_case(rng, big):
                 G.gen_forms(rng, spec)
         if first is None:
             first = spec
+        last = spec
         ops.append(['new', spec])
         meta.append((spec['sys'], spec_ndim(spec), bool(spec.get('int'))))
     nops = int(rng.integers(2, 8 if not big else 12))
@@ -103,7 +111,84 @@ def gen_case(rng, big):
             ops.append([op, i])
             if op == 'reversed':
                 meta.append(meta[i])
-    return {'ops': ops, 'shared': shared}
+    return {'ops': ops, 'shared': shared, 'xdim': xdim}
+
+
+def gen_share_case(rng):
+    """Histories with SHARING AT THE COORDS LEVEL: several grids on one Coords object (`CartesianGrid(g.coords)`,
+    `PolarGrid(g.coords)`, a grid on the coords of a grid that is itself a second holder), written through ANY holder's
+    API (scale / shift / reverse), through the Coords object itself (`c = g.coords; c *= f; c += b; c.reverse()` - what a
+    caller who kept the object does) and through the arrays the accessors hand out (`g.separated_coords[k] *= c`,
+    `g.coords[k] += c`, `g.coords.zero += b`), interleaved with copies / round trips (fresh Coords objects), reading
+    `.weights`, and further holders built late.  All live grids are re-read, compared pairwise and hashed after every op."""
+    kinds = ('sep', 'uns', 'sep', 'uns', 'reg')
+    ops = []
+    meta = []           # (sys, ndim, kind, cell) per slot
+    ncell = 0
+    for _ in range(int(rng.integers(1, 3))):
+        spec = G.gen_spec(rng, maxn=5, kinds=kinds)
+        if spec['kind'] == 'sep':
+            spec['data'] = [a if len(a) > 1 else a + [a[0] + 1.5] for a in spec['data']]
+            if isinstance(spec['w'], list):
+                spec['w'] = None
+        ops.append(['new', spec])
+        meta.append((spec['sys'], spec_ndim(spec), spec['kind'], ncell))
+        ncell += 1
+    for _ in range(int(rng.integers(1, 4))):
+        i = int(rng.integers(0, len(meta)))
+        sysm, ndim, kind, cell = meta[i]
+        tosys = ('p' if sysm == 'c' else 'c') if (ndim == 2 and rng.random() < 0.4) else sysm
+        ops.append(['on', i, tosys])
+        meta.append((tosys, ndim, kind, cell))
+    for _ in range(int(rng.integers(3, 9))):
+        i = int(rng.integers(0, len(meta)))
+        sysm, ndim, kind, cell = meta[i]
+        r = rng.random()
+        if r < 0.3:
+            op = str(rng.choice(['scale', 'shift', 'reverse']))
+            if op == 'shift' and sysm == 'p':
+                op = 'reverse'
+            if op == 'scale':
+                ops.append(['scale', i, gen_scale_arg(rng, ndim, sysm == 'p')])
+            elif op == 'shift':
+                ops.append(['shift', i, gen_shift(rng, ndim), str(rng.choice(G.VECTOR_FORMS))])
+            else:
+                ops.append(['reverse', i])
+        elif r < 0.6:
+            via = 'coords-object' if (rng.random() < 0.5 or (kind == 'reg')) else 'accessor-array'
+            what = str(rng.choice(['scale', 'shift', 'reverse'])) if via == 'coords-object' else str(rng.choice(['scale', 'shift']))
+            if kind == 'reg' and rng.random() < 0.3:
+                via, what = 'accessor-array', 'shift'           # g.coords.zero += b
+            if what == 'scale':
+                arg = [float(rng.choice([-2.0, -1.0, 0.5, 2.0, 1.5, 4.0])) for _ in range(ndim)]
+                if via == 'accessor-array':
+                    k = int(rng.integers(0, ndim))
+                    arg = [arg[q] if q == k else 1.0 for q in range(ndim)]
+            elif what == 'shift':
+                arg = [float(rng.choice([0.5, -1.0, 2.0, 0.125, -3.25])) for _ in range(ndim)]
+                if via == 'accessor-array' and kind != 'reg':
+                    k = int(rng.integers(0, ndim))
+                    arg = [arg[q] if q == k else 0.0 for q in range(ndim)]
+            else:
+                arg = None
+            ops.append(['cedit', i, what, arg, via])
+        elif len(meta) >= MAXLIVE:
+            ops.append(['mat', i])
+        elif r < 0.72:
+            tosys = ('p' if sysm == 'c' else 'c') if (ndim == 2 and rng.random() < 0.3) else sysm
+            ops.append(['on', i, tosys])
+            meta.append((tosys, ndim, kind, cell))
+        elif r < 0.86:
+            ops.append(['rt', i, str(rng.choice(['copy', 'dict', 'pickle']))])
+            meta.append((sysm, ndim, kind, ncell))
+            ncell += 1
+        elif r < 0.93:
+            ops.append(['rebuild', i, False])
+            meta.append((sysm, ndim, kind, ncell))
+            ncell += 1
+        else:
+            ops.append(['mat', i])
+    return {'ops': ops, 'shared': False, 'share': True}
 
 
 TINY = [2.0 ** -54, 2.0 ** -53, -2.0 ** -54, 2.0 ** -60, 1e-17, -1e-20, 2.0 ** -1074, 1e-300]
@@ -153,12 +238,62 @@ def gen_float_case(rng):
     return {'ops': ops, 'shared': False, 'float': True}
 
 
-def twin_of(rng, spec):
+def change_ndim(rng, t):
+    """Give the spec another number of axes while keeping the number of points and every remaining axis as it is:
+    unstructured - a column more (a copy of a column, zeros, or new values) or the last column dropped; separated - a
+    one-point axis appended / the last axis dropped (same point count when it had one point); regular - an axis with
+    dims 1 appended / the last axis dropped.  Cartesian only (polar grids are 2-D)."""
+    t['sys'] = 'c'
+    kind = t['kind']
+    nd = spec_ndim(t)
+    grow = nd == 1 or (nd < 3 and rng.random() < 0.6)
+    size_before = G.spec_size(t)
+    if kind == 'uns':
+        if grow:
+            n = len(t['data'][0])
+            r = rng.random()
+            col = list(t['data'][-1]) if r < 0.35 else [0.0] * n if r < 0.6 else [float(rng.integers(-4, 5)) * 0.5 for _ in range(n)]
+            t['data'] = t['data'] + [col]
+        else:
+            t['data'] = t['data'][:-1]
+    elif kind == 'sep':
+        if grow:
+            t['data'] = t['data'] + [[float(rng.choice([0.0, 1.0, -2.5]))]]
+        else:
+            t['data'] = t['data'][:-1]
+    else:
+        d, n, z = t['data']
+        if grow:
+            t['data'] = [d + [float(rng.choice([1.0, 0.5, d[-1]]))], n + [1], z + [float(rng.choice([0.0, z[-1]]))]]
+        else:
+            t['data'] = [d[:-1], n[:-1], z[:-1]]
+    if isinstance(t['w'], list) and G.spec_size(t) != size_before:
+        t['w'] = None
+    t.pop('forms', None)
+    t.pop('shared', None)
+    t['int'] = False
+
+
+def twin_of(rng, spec, what=None):
     """A grid that differs from `spec` in exactly one aspect (or in none)."""
     import copy
     t = copy.deepcopy(spec)
-    what = str(rng.choice(['same', 'system', 'kind', 'value', 'size', 'weights', 'int', 'forms', 'forms']))
+    if what is None:
+        what = str(rng.choice(['same', 'system', 'kind', 'value', 'size', 'weights', 'int', 'forms', 'forms', 'ndim']))
     t['_twin'] = what
+    if what == 'ndim':
+        change_ndim(rng, t)
+        if rng.random() < 0.3:
+            # ... and another storage of the same points (regular -> separated, 1-D separated -> unstructured)
+            if t['kind'] == 'reg':
+                d, n, z = t['data']
+                t['kind'] = 'sep'
+                t['data'] = [[zz + k * dd for k in range(nn)] for dd, nn, zz in zip(d, n, z)]
+            elif t['kind'] == 'sep' and all(len(a) == len(t['data'][0]) for a in t['data']) and rng.random() < 0.5:
+                t['kind'] = 'uns'       # the axes re-read as columns: other points, same arrays
+                if isinstance(t['w'], list):
+                    t['w'] = None
+        return t
     if what == 'system' and len(t['data'][1] if t['kind'] == 'reg' else t['data']) == 2:
         t['sys'] = 'p' if t['sys'] == 'c' else 'c'
     elif what == 'kind':
@@ -318,6 +453,33 @@ def apply_real(grids, op, pool=None, shared=False):
                 grids.append(grids[op[1]].shifted(b))
             else:
                 grids[op[1]].shift(b)
+        elif kind == 'on':
+            cls = hcipy.CartesianGrid if op[2] == 'c' else hcipy.PolarGrid
+            grids.append(cls(grids[op[1]].coords))
+        elif kind == 'cedit':
+            g = grids[op[1]]
+            what, arg, via = op[2], op[3], op[4]
+            if via == 'coords-object':
+                c = g.coords            # the object a caller who built the grid still holds
+                if what == 'scale':
+                    c *= np.array(arg)
+                elif what == 'shift':
+                    c += np.array(arg)
+                else:
+                    c.reverse()
+            else:
+                name = type(g.coords).__name__
+                if name == 'RegularCoords':
+                    g.coords.zero += np.array(arg)
+                else:
+                    neutral = 1.0 if what == 'scale' else 0.0
+                    ks = [q for q, v in enumerate(arg) if v != neutral]
+                    for q in ks:
+                        arr = g.separated_coords[q] if name == 'SeparatedCoords' else g.coords[q]
+                        if what == 'scale':
+                            arr *= arg[q]
+                        else:
+                            arr += arg[q]
         elif kind == 'reversed':
             grids.append(grids[op[1]].reversed())
         elif kind == 'reverse':
@@ -351,6 +513,11 @@ def model_op_line(op):
         return 'C10 rtdict %d' % op[1]
     if kind in ('rt', 'rebuild'):
         return 'C10 copy %d' % op[1]
+    if kind == 'on':
+        return 'C10 on %d %s' % (op[1], op[2])
+    if kind == 'cedit':
+        return 'C10 cedit %d %s' % (op[1], {'scale': 'cscale ' + rat_list(op[3] or []), 'shift': 'cshift ' + rat_list(op[3] or []),
+                                             'reverse': 'creverse'}[op[2]])
     if kind in ('scaled', 'scale'):
         a = op[2]
         arg = ('s:' + rat(a[1])) if a[0] == 's' else ('v:' + rat_list(a[1]))
@@ -364,11 +531,16 @@ def run_real(case):
     grids = []
     steps = []
     pool = G.Pool()
+    cells = []          # by the history alone: which Coords object every live grid was built on
     for op in case['ops']:
         before = [G.snap(g) for g in grids]
         LAST.clear()
         status = apply_real(grids, op, pool, case.get('shared', False))
-        steps.append({'op': op, 'status': status, 'before': before, 'dict': LAST.get('dict'),
+        while len(cells) < len(grids):
+            cells.append(cells[op[1]] if op[0] == 'on' else (max(cells) + 1 if cells else 0))
+        # the same partition read from the objects (`is`)
+        real_cells = [min(q for q in range(len(grids)) if grids[q].coords is grids[k].coords) for k in range(len(grids))]
+        steps.append({'op': op, 'status': status, 'before': before, 'dict': LAST.get('dict'), 'cells': list(cells), 'real_cells': real_cells,
                       'shared': count_shared([a for g in grids for a in coord_arrays(g)] + list(pool.arrays)), 'obs': observe(grids), 'caller_changed': pool.changed(),
                       'pool': [a.tolist() for a in pool.arrays], 'pool_keys': list(pool.keys)})
         if status != 'ok':
@@ -471,8 +643,35 @@ def oracle(steps):
                         if obs['eq'][j][k] is True and obs['eq'][i][k] is not True:
                             bad.append(('eq-trans', 'g%d == g%d == g%d but not g%d == g%d' % (i, j, k, i, k)))
         # earlier grids untouched / the mutated one changed accordingly
-        target = op[1] if opname in INPLACE else None
+        target = op[1] if opname in INPLACE or opname == 'cedit' else None
+        cells = st.get('cells') or list(range(n))
+        canon = [min(q for q in range(n) if cells[q] == cells[k]) for k in range(n)]
+        if canon != st.get('real_cells', canon):
+            bad.append(('coords-object-sharing', 'after %s the grids hold the Coords objects %r, by construction they should hold %r' % (
+                opname, st.get('real_cells'), canon)))
+        if opname == 'cedit':
+            # a write to the Coords object itself: the plain coordinate arithmetic, no system-specific argument handling
+            eff_op = {'scale': ['scale', op[1], ['v', op[3]]], 'shift': ['shift', op[1], op[3]], 'reverse': ['reverse', op[1]]}[op[2]]
+            src = dict(before[op[1]])
+            src['sys'] = 'c'
+            want_shared = expected_effect(eff_op, src)
+        elif target is not None:
+            want_shared = expected_effect(op, before[target])
         for k in range(len(before)):
+            if target is not None and k != target and cells[k] == cells[target] and opname != 'mat':
+                # another holder of the Coords object that was written through: it follows (coordinates), keeps system and weights
+                if not same_data(want_shared, snaps[k]['data']) or before[k]['sys'] != snaps[k]['sys'] or before[k]['kind'] != snaps[k]['kind']:
+                    bad.append(('shared-coords-follow %s' % opname, 'a write through the shared Coords object (%s via grid %d) is not seen by grid %d on the same object' % (
+                        opname, op[1], k)))
+                if before[k]['w'] != snaps[k]['w']:
+                    bad.append(('alias %s' % opname, '%s on grid %d changed the stored weights of another holder of its Coords object' % (opname, op[1])))
+                continue
+            if k == target and opname == 'cedit':
+                if not same_data(want_shared, snaps[k]['data']):
+                    bad.append(('mutate-identity cedit', 'an in-place %s of the Coords object (%s) did not change the coordinates as specified' % (op[2], op[4])))
+                if before[k]['w'] != snaps[k]['w']:
+                    bad.append(('alias cedit', 'a write to the Coords object changed stored weights'))
+                continue
             if k == target:
                 want = expected_effect(op, before[k])
                 if opname == 'shiftf':
@@ -522,6 +721,29 @@ def oracle(steps):
     return out
 
 
+def snap_ndim(s):
+    return len(s['data'][1]) if s['kind'] == 'reg' else len(s['data'])
+
+
+def snap_size(s):
+    if s['kind'] == 'reg':
+        return int(np.prod(s['data'][1]))
+    if s['kind'] == 'sep':
+        return int(np.prod([len(a) for a in s['data']]))
+    return len(s['data'][0]) if s['data'] else 0
+
+
+def leading_axes_shared(a, b):
+    """two grids of different ndim, same system and kind, same number of points, the lower-dimensional one's axes
+    being the leading axes of the other"""
+    if a['sys'] != b['sys'] or a['kind'] != b['kind'] or snap_size(a) != snap_size(b):
+        return False
+    k = min(snap_ndim(a), snap_ndim(b))
+    if a['kind'] == 'reg':
+        return all(a['data'][q][:k] == b['data'][q][:k] for q in range(3))
+    return a['data'][:k] == b['data'][:k]
+
+
 def aliased(spec):
     """does the constructor receive one array object more than once?"""
     if not spec.get('shared') or spec.get('int'):
@@ -543,6 +765,8 @@ def differ(a, b):
         return 'system'
     if a['kind'] != b['kind']:
         return 'kind'
+    if snap_ndim(a) != snap_ndim(b):
+        return 'ndim %d vs %d, %s' % (snap_ndim(a), snap_ndim(b), 'same point count and leading axes' if leading_axes_shared(a, b) else 'other axes')
     if lens(a) != lens(b):
         return 'size'
     return 'value'
@@ -628,6 +852,35 @@ DIRECTED = [
 ]
 
 
+X3, Y3, Z3 = [0.0, 1.0, 3.0], [2.0, -1.0, 0.5], [4.0, 4.0, -2.0]
+DIRECTED_XDIM = [
+    # a point cloud, its projections and a second cloud over the same projection: == must not be a prefix comparison
+    {'xdim': True, 'ops': [['new', S('c', 'uns', [X3, Y3, Z3])], ['new', S('c', 'uns', [X3, Y3])], ['new', S('c', 'uns', [X3, Y3, [0.0, 0.0, 0.0]])],
+                           ['new', S('c', 'uns', [X3])], ['rt', 1, 'copy'], ['scaled', 0, ['s', 2.0]], ['scaled', 1, ['s', 2.0]]]},
+    {'xdim': True, 'ops': [['new', S('c', 'sep', [X3, [0.0, 1.0]])], ['new', S('c', 'sep', [X3, [0.0, 1.0], [5.0]])], ['new', S('c', 'sep', [X3])],
+                           ['new', S('c', 'sep', [X3, [0.0]])], ['new', S('c', 'uns', [X3, [0.0, 0.0, 0.0]])], ['rt', 1, 'dict'], ['reverse', 1]]},
+    {'xdim': True, 'ops': [['new', S('c', 'reg', [[0.5], [4], [-1.0]])], ['new', S('c', 'reg', [[0.5, 1.0], [4, 1], [-1.0, 0.0]])],
+                           ['new', S('c', 'reg', [[0.5, 1.0, 1.0], [4, 1, 1], [-1.0, 0.0, 0.0]])], ['new', S('c', 'sep', [[-1.0, -0.5, 0.0, 0.5], [0.0]])],
+                           ['new', S('c', 'sep', [[-1.0, -0.5, 0.0, 0.5]])], ['rt', 0, 'pickle'], ['shifted', 1, [0.0, 0.0]]]},
+    {'xdim': True, 'ops': [['new', S('c', 'uns', [[1.0], [2.0]])], ['new', S('c', 'uns', [[1.0], [2.0], [3.0]])], ['new', S('c', 'sep', [[1.0], [2.0]])],
+                           ['new', S('c', 'sep', [[1.0], [2.0], [3.0]])], ['new', S('c', 'reg', [[1.0, 1.0], [1, 1], [1.0, 2.0]])],
+                           ['new', S('c', 'reg', [[1.0, 1.0, 1.0], [1, 1, 1], [1.0, 2.0, 3.0]])]]},
+]
+
+DIRECTED_SHARE = [
+    # two Cartesian grids and a polar one on ONE Coords object; written through each holder in turn, through the object, through an accessor's array
+    {'share': True, 'shared': False, 'ops': [['new', S('c', 'sep', [[0.0, 1.0, 3.0], [0.0, 2.0]])], ['on', 0, 'c'], ['on', 0, 'p'], ['rt', 0, 'copy'],
+        ['scale', 0, ['s', 2.0, 'pyfloat']], ['shift', 1, [1.0, 0.0], 'float64'], ['reverse', 1], ['cedit', 2, 'scale', [2.0, 0.5], 'coords-object'],
+        ['cedit', 0, 'shift', [0.0, 0.5], 'accessor-array'], ['rebuild', 1, False], ['scale', 2, ['s', 2.0, 'pyfloat']]]},
+    {'share': True, 'shared': False, 'ops': [['new', S('c', 'uns', [[0.0, 1.0, 3.0], [2.0, -1.0, 0.5]], [1.0, 2.0, 3.0])], ['on', 0, 'c'], ['on', 1, 'p'],
+        ['cedit', 0, 'scale', [1.0, 4.0], 'accessor-array'], ['rt', 1, 'pickle'], ['scale', 1, ['v', [2.0, 1.0], 'float64']], ['cedit', 2, 'reverse', None, 'coords-object'],
+        ['rt', 2, 'dict'], ['shift', 0, [0.5, 0.5], 'list']]},
+    {'share': True, 'shared': False, 'ops': [['new', S('c', 'reg', [[0.5, 0.25], [4, 3], [-1.0, 0.0]])], ['on', 0, 'p'], ['on', 0, 'c'], ['cedit', 1, 'shift', [1.0, 0.5], 'accessor-array'],
+        ['scale', 0, ['s', 2.0, 'pyfloat']], ['reverse', 2], ['cedit', 2, 'scale', [2.0, -1.0], 'coords-object'], ['rt', 1, 'copy'], ['reverse', 3]]},
+    {'share': True, 'shared': False, 'ops': [['new', S('p', 'sep', [[1.0, 2.0], [0.0, 1.0, 2.0]])], ['on', 0, 'p'], ['scale', 0, ['s', 2.0, 'pyfloat']], ['reverse', 1],
+        ['on', 1, 'c'], ['scale', 2, ['v', [1.0, 2.0], 'float64']], ['cedit', 0, 'shift', [0.5, 0.0], 'coords-object']]},
+]
+
 DIRECTED_FLOAT = [
     # the caveat of `shift_changes`: a shift below half an ulp of every coordinate is absorbed (== stays True, same hash)
     {'float': True, 'shared': False, 'ops': [['new', S('c', 'sep', [[1.0, 2.0, -1.5]])], ['shiftedf', 0, [2.0 ** -54]], ['shiftf', 0, [2.0 ** -54]], ['shiftedf', 0, [2.0 ** -52]]]},
@@ -646,8 +899,19 @@ def check_case(ctx, case, label):
     for key, what in bad:
         ctx.violation(key, what, case)
     ctx.count('family:' + label)
+    if case.get('xdim'):
+        ctx.count('family:xdim')
     for st in steps:
         ctx.count('op:' + st['op'][0])
+        o = st['op']
+        if o[0] == 'on' and st['status'] == 'ok':
+            ctx.count('share:on:' + ('same-system' if st['before'][o[1]]['sys'] == o[2] else 'other-system') + ':' + st['before'][o[1]]['kind'])
+        if st.get('cells') and o[0] in ('scale', 'shift', 'reverse', 'cedit') and st['status'] == 'ok' and o[1] < len(st['cells']):
+            holders = sum(1 for c in st['cells'] if c == st['cells'][o[1]])
+            if holders > 1 or o[0] == 'cedit':
+                ctx.count('share:write-via:' + ('holder-api:' + o[0] if o[0] != 'cedit' else o[4] + ':' + o[2]))
+                ctx.count('share:holders-at-write:%d' % holders)
+                ctx.count('share:writer-is:' + ('first-holder' if st['cells'].index(st['cells'][o[1]]) == o[1] else 'later-holder'))
         if st['op'][0] in ('shiftf', 'shiftedf') and st['status'] == 'ok':
             src = st['before'][st['op'][1]]
             want = expected_effect(['shiftf', st['op'][1], st['op'][2]], src)
@@ -662,6 +926,14 @@ def check_case(ctx, case, label):
         if s['kind'] == 'sep' and len(set(len(a) for a in s['data'])) > 1:
             ctx.count('ragged-separated')
     n = len(last['snaps'])
+    for i in range(n):
+        for j in range(i + 1, n):
+            a, b = last['snaps'][i], last['snaps'][j]
+            na, nb = snap_ndim(a), snap_ndim(b)
+            if na != nb:
+                lead = leading_axes_shared(a, b)
+                ctx.count('xdim-pairs:%s-%s:%s' % (min(a['kind'], b['kind']), max(a['kind'], b['kind']),
+                                                 'same-size-shared-leading-axes' if lead else 'other'))
     neq = sum(1 for i in range(n) for j in range(n) if i < j and last['eq'][i][j] is True)
     ctx.count('equal-pairs', neq)
     ctx.count('unequal-pairs', n * (n - 1) // 2 - neq)
@@ -746,8 +1018,8 @@ def ref_plan(case, steps):
     pobj = {}           # object index of every caller array (by pool index)
     for st in steps:
         op, kind = st['op'], st['op'][0]
-        if st['status'] != 'ok' or kind in ('shiftf', 'shiftedf'):
-            break
+        if st['status'] != 'ok' or kind in ('shiftf', 'shiftedf', 'on', 'cedit'):
+            break       # float shifts: Grid.shiftR; grids on one Coords object: Model/GridShare.lean (`on`, `cedit`, propagation)
         snaps = st['obs']['snaps']
         if kind == 'new' and op[1].get('shared') and not op[1].get('int'):
             spec = op[1]
@@ -1117,11 +1389,13 @@ def run(ctx):
                         'scale on a Cartesian separated grid with an axis of fewer than two points and no stored weights raises IndexError '
                         '(automatic weights undefined) and is treated as outside the quantifier']
     n = ctx.scale(2500, 12000)
-    cases = [(c, 'directed') for c in DIRECTED + DIRECTED_SHARED + DIRECTED_FLOAT]
+    cases = [(c, 'directed') for c in DIRECTED + DIRECTED_SHARED + DIRECTED_XDIM + DIRECTED_SHARE + DIRECTED_FLOAT]
     for k in range(n):
         cases.append((gen_case(ctx.rng, big=(ctx.tier == 'thorough' and k % 4 == 0)), 'random'))
     for k in range(ctx.scale(300, 2000)):
         cases.append((gen_float_case(ctx.rng), 'float-shift'))
+    for k in range(ctx.scale(350, 1200)):
+        cases.append((gen_share_case(ctx.rng), 'coords-sharing'))
     all_lines = []
     plan = []
     nan_plan = []
